@@ -18,7 +18,8 @@
  *   usage: d_callrcu <seed> <tso> <trace> <program-file>
  * program file:  "re <n> <m>"  the callback of rcu_head n passes rcu_head m to call_rcu()
  *                "thread <name>" followed by "<op> <n> <x> <f> <c>" lines, ops:
- *                call rlock runlock sync getdef create setthr setcpu cpu free barrier pause resume
+ *                call rlock runlock sync getdef create setthr setcpu cpu free barrier pause resume createall freeall offline online
+ *                "ncpu <k>"  get_possible_cpus_array_len() returns k (scenarios with createall / freeall: one helper per model CPU)
  *
  * Oracles (independent of the specification): callback invoked twice / never (at quiescence) / with a wrong function or
  * head / while a read-side section open at call_rcu() entry is still open; rcu_barrier() returning before a callback
@@ -40,7 +41,8 @@ static void d_free(void *p);
 
 /* ------------------------------------------------------------------ directed schedules (spec -> code)
  * CR_SCRIPT=<file>: lines "<thread> <kind> <var|*>" -- an order on driver-visible events (call ret rlock runlock gp_begin
- * gp_end cb cbend) taken from a TLC behaviour / counterexample of spec/CallRcu.tla.  An event that matches a pending line waits
+ * gp_end cb cbend; for operations other than call_rcu the variable of call / ret is the operation name; alloc / alloced ARR: the
+ * library allocates the per-CPU pointer array) taken from a TLC behaviour / counterexample of spec/CallRcu.tla.  An event that matches a pending line waits
  * (scheduler-level predicate) until every earlier line has happened; events that match no pending line and all other steps
  * are scheduled freely by the seeded scheduler.  Only orders that the unmodified code can always follow are stored with the
  * scenarios (a gate that can never open ends in the runtime's DEADLOCK oracle). */
@@ -125,6 +127,13 @@ static NS void d_noop(void) {}
 #define d_open_cs(i) d_cs[i]
 #endif
 
+/* the possible-CPU array length is an environment input: "ncpu <k>" in the program file overrides the machine's value.
+ * compat-smp.h has no include guard, so the name is rewritten by a variadic macro: the definition
+ * "get_possible_cpus_array_len(void)" becomes d_gpcal_void(), every call "get_possible_cpus_array_len()" becomes d_gpcal_() */
+static int d_ncpu;
+static inline int d_gpcal_void(void);
+static NS int d_gpcal_(void) { return d_ncpu > 0 ? d_ncpu : d_gpcal_void(); }
+#define get_possible_cpus_array_len(...) d_gpcal_##__VA_ARGS__()
 #define malloc d_malloc
 #define calloc d_calloc
 #define free d_free
@@ -144,6 +153,7 @@ static NS void d_noop(void) {}
 #undef malloc
 #undef calloc
 #undef free
+#undef get_possible_cpus_array_len
 /* the included sources reference the compat futex fallback (only used when futex() returns ENOSYS) */
 int compat_futex_noasync(int32_t *uaddr, int op, int32_t val, const struct timespec *timeout, int32_t *uaddr2, int32_t val3)
 { (void) uaddr; (void) op; (void) val; (void) timeout; (void) uaddr2; (void) val3; vrt_fail("RUNTIME compat futex fallback reached"); }
@@ -193,7 +203,7 @@ static struct call_rcu_data *slots[MAXSLOT];
 /* ------------------------------------------------------------------ recording allocator for the library */
 enum { K_CRDP = 1, K_COMP, K_WORK };
 struct arec { void *p; size_t sz; int kind, freed; char name[40]; };
-static struct arec A[256]; static int na; static int ncrdp;
+static struct arec A[256]; static int na; static int ncrdp; static int arr_named;
 static NS struct arec *arec_of(void *p) { for (int i = 0; i < na; i++) if (A[i].p == p) return &A[i]; return NULL; }
 static NS struct arec *arec_new(void *p, size_t sz, int kind)
 {
@@ -204,18 +214,23 @@ static NS void *d_malloc(size_t sz)
 {
 	void *p = (malloc)(sz);
 	if (!p) return p;
-	if (vrt_in_model() && me && !strcmp(me->ops[cur_op].kind, "setcpu")) {
-		/* alloc_cpu_call_rcu_data(): the per-CPU pointer array (set_cpu_call_rcu_data allocates nothing else); only the
-		 * first model CPUs are used */
-		struct call_rcu_data **arr = p;
-		vrt_name_val(p, "ARR");
-		for (int i = 0; i < 4 && (size_t) i < sz / sizeof(*arr); i++) vrt_name(&arr[i], VK_PTR, "pcpu%d", i);
-	} else if (sz == sizeof(struct call_rcu_data)) {
+	if (sz == sizeof(struct call_rcu_data)) {
 		struct call_rcu_data *c = p; struct arec *a = arec_new(p, sz, K_CRDP); int k = ++ncrdp;
 		snprintf(a->name, sizeof a->name, "c%d", k);
 		vrt_name_val(c, "c%d", k); vrt_name_val(&c->cbs_head.node, "Hc%d", k);
 		vrt_name(&c->cbs_tail.p, VK_PTR, "c%d.tail", k); vrt_name(&c->cbs_head.node.next, VK_PTR, "Hc%d.next", k);
 		vrt_name(&c->flags, VK_INT, "c%d.flags", k); vrt_name(&c->futex, VK_INT, "c%d.futex", k); vrt_name(&c->qlen, VK_INT, "c%d.qlen", k);
+	} else if (vrt_in_model() && me && !arr_named && (!strcmp(me->ops[cur_op].kind, "setcpu") || !strcmp(me->ops[cur_op].kind, "createall"))) {
+		arr_named = 1;
+		/* directed schedules: "alloc ARR" / "alloced ARR" bracket the window in which cpus_array_len is already set and
+		 * per_cpu_call_rcu_data is still NULL (the caller holds call_rcu_mutex) */
+		gate_done(gate("alloc", "ARR"));
+		gate_done(gate("alloced", "ARR"));
+		/* alloc_cpu_call_rcu_data(): the per-CPU pointer array (set_cpu_call_rcu_data allocates nothing else); only the
+		 * first model CPUs are used */
+		struct call_rcu_data **arr = p;
+		vrt_name_val(p, "ARR");
+		for (int i = 0; i < 4 && (size_t) i < sz / sizeof(*arr); i++) vrt_name(&arr[i], VK_PTR, "pcpu%d", i);
 	}
 	return p;
 }
@@ -322,6 +337,12 @@ static NS void *runner(void *arg)
 		if (!strcmp(o->kind, "rlock")) { d_read_lock(); continue; }
 		if (!strcmp(o->kind, "runlock")) { d_read_unlock(); continue; }
 		if (!strcmp(o->kind, "cpu")) { vrt_set_cpu(o->c); continue; }
+		if (!strcmp(o->kind, "offline") || !strcmp(o->kind, "online")) {	/* qsbr integration runs; nothing for the other flavors */
+#ifdef CR_FLAVOR_QSBR
+			if (o->kind[1] == 'f') rcu_thread_offline(); else rcu_thread_online();
+#endif
+			continue;
+		}
 		if (!strcmp(o->kind, "call")) {
 			int k = atoi(o->n + 1);
 			vrt_op_begin("call_rcu", VP_BLOCKING);
@@ -330,7 +351,9 @@ static NS void *runner(void *arg)
 			continue;
 		}
 		struct call_rcu_data *c = crdp_of(o->x);
+		int g = gate("call", o->kind);
 		vrt_log("\"op\":\"call\",\"var\":\"%s\",\"a\":\"%s\"", (!strcmp(o->kind, "free") || !strcmp(o->kind, "setcpu") || !strcmp(o->kind, "setthr")) && slot_of(o->x) >= 0 ? vrt_sym(c) : "-", o->kind);
+		gate_done(g);
 		vrt_op_begin(o->kind, VP_BLOCKING);
 		if (!strcmp(o->kind, "sync")) d_synchronize_rcu();
 		else if (!strcmp(o->kind, "getdef")) (void) get_default_call_rcu_data();
@@ -343,7 +366,12 @@ static NS void *runner(void *arg)
 			int r = set_cpu_call_rcu_data(o->c, c);
 			snprintf(res, sizeof res, "%s", r == 0 ? "0" : r == -EEXIST ? "EEXIST" : "ERR");
 			if (r && r != -EEXIST) vrt_fail("RUNTIME set_cpu_call_rcu_data(%d) failed: %d (fewer than %d possible CPUs on this machine?)", o->c, r, o->c + 1);
-		} else if (!strcmp(o->kind, "free")) call_rcu_data_free(c);
+		} else if (!strcmp(o->kind, "createall")) {
+			int r = create_all_cpu_call_rcu_data(o->f);
+			snprintf(res, sizeof res, "%s", r == 0 ? "0" : "ERR");
+			if (r) vrt_fail("RUNTIME create_all_cpu_call_rcu_data failed: %d", r);
+		} else if (!strcmp(o->kind, "freeall")) free_all_cpu_call_rcu_data();
+		else if (!strcmp(o->kind, "free")) call_rcu_data_free(c);
 		else if (!strcmp(o->kind, "barrier")) {
 			int before[MAXN]; memcpy(before, queued, sizeof before);
 			if (d_nest[vrt_self()] > 0) vrt_fail("SCENARIO rcu_barrier inside a read-side critical section");
@@ -354,7 +382,9 @@ static NS void *runner(void *arg)
 		else if (!strcmp(o->kind, "resume")) call_rcu_after_fork_parent();
 		else vrt_fail("RUNTIME unknown op %s", o->kind);
 		vrt_op_end();
+		g = gate("ret", o->kind);
 		vrt_log("\"op\":\"ret\",\"r\":\"%s\"", res);
+		gate_done(g);
 	}
 #ifdef CR_REAL
 	rcu_unregister_thread();
@@ -370,6 +400,7 @@ int main(int argc, char **argv)
 	while (fgets(line, sizeof line, f)) {
 		char a[16], b[16], c[16]; int x, y;
 		if (sscanf(line, "re n%d n%d", &x, &y) == 2) { if (x < 1 || x >= MAXN || y < 1 || y >= MAXN) return 2; re_of[x] = y; continue; }
+		if (sscanf(line, "ncpu %d", &x) == 1) { d_ncpu = x; continue; }
 		if (sscanf(line, "thread %15s", a) == 1) { if (np == MAXTHR) return 2; cur = &P[np]; cur->idx = np++; snprintf(cur->name, sizeof cur->name, "%s", a); continue; }
 		if (!cur || cur->nops == MAXOPS) continue;
 		struct op *op = &cur->ops[cur->nops];
